@@ -1,5 +1,5 @@
 (* Tie/C20.v — executable glue of the C20 correspondence check (no theorems). *)
-From Coq Require Import List QArith Qabs Bool Arith.
+From Coq Require Import List QArith Qabs Bool Arith NArith.
 From FDAV Require Import Base.Num Base.Vec Base.Cmp Model.NoiseSparse.
 Import ListNotations.
 
@@ -35,10 +35,10 @@ Definition combined_eq (tol s : Q) (Z X : list (list Q)) (masks : list (list boo
            (ps : list (nat * nat)) (impl_noisy : list (list Q)) (impl : list (list (option Q))) : bool :=
   noise_close tol s Z X impl_noisy && cellsm_eq (sparsify_m masks ps impl_noisy) impl.
 
-(* the fault machine on tokens: datasets are numbered, add_noise maps clean
-   dataset d to d+100, sparsify maps d to d+1000 *)
-Definition tok_noise (d : nat) : nat := (d + 100)%nat.
-Definition tok_sparse (d : nat) : option nat := Some (d + 1000)%nat.
+(* the fault machine on tokens: datasets are numbered, add_noise maps
+   dataset d to d+10, sparsify maps d to d+20 *)
+Definition tok_noise (d : nat) : nat := (d + 10)%nat.
+Definition tok_sparse (d : nat) : option nat := Some (d + 20)%nat.
 Definition tok_state (d n sp : option nat) : sim nat nat := {| data := d; noisy := n; sparse := sp |}.
 Definition opt_nat_eq (a b : option nat) : bool :=
   match a, b with Some x, Some y => (x =? y)%nat | None, None => true | _, _ => false end.
@@ -65,3 +65,12 @@ Definition tok_check_all (two_d : bool) (a b : nat) (s : sim nat nat)
 Definition tok_check_all_nofinally (two_d : bool) (a b : nat) (s : sim nat nat)
            (obs : list (option nat * (bool * sim nat nat))) : bool :=
   forallb (fun e => tok_check_nofinally two_d a b (fst e) s (fst (snd e)) (snd (snd e))) obs.
+
+(* binary-number front end (fault positions are several hundred: no unary literals) *)
+Definition optN (k : option N) : option nat := match k with Some n => Some (N.to_nat n) | None => None end.
+Definition tok_check_allN (two_d : bool) (a b : N) (s : sim nat nat)
+           (obs : list (option N * (bool * sim nat nat))) : bool :=
+  tok_check_all two_d (N.to_nat a) (N.to_nat b) s (map (fun e => (optN (fst e), snd e)) obs).
+Definition tok_check_all_nofinallyN (two_d : bool) (a b : N) (s : sim nat nat)
+           (obs : list (option N * (bool * sim nat nat))) : bool :=
+  tok_check_all_nofinally two_d (N.to_nat a) (N.to_nat b) s (map (fun e => (optN (fst e), snd e)) obs).
